@@ -166,7 +166,11 @@ def judge_pty(ctx, op, ret, exc, acc, case):
             out.append(('stale-descriptor-number', 'child_fd=%d is %s, not the pty opened at spawn (closed=%r, after %s%s)' % (
                 c.child_fd, 'not an open descriptor' if ident is None else 'another file', c.closed, op,
                 ' which raised %s' % type(exc).__name__ if exc is not None else '')))
-    # I4: after a successful close every I/O operation fails and does not touch the old number
+    # I4: after a successful close every I/O operation fails and does not touch the old number - and likewise after a
+    # polite close that failed (the child survived) but has given the descriptor up (child_fd == -1)
+    if exc is not None and op == 'closeNF' and c.child_fd == -1 and ctx.fd_number not in nfds_int():
+        ctx.closed_ok = True
+        acc.count('invariant_I4_after_failed_polite_close')
     if getattr(ctx, 'closed_ok', False) and not getattr(ctx, 'i4_done', False):
         ctx.i4_done = True
         acc.count('invariant_I4')
